@@ -308,6 +308,8 @@ func checkC18(c *Ctx) {
 	// ---- no narrowing of fed keys (K3) — shared with C02
 	checkNoNarrowing(c, "C18.no-narrowing")
 	checkC18StopRecord(c)
+	checkKeyCodeTables(c, "C18.key-code-tables")
+	checkPopOrder(c, "C18.pop-order")
 }
 
 // checkNoNarrowing: no lossy rune→byte conversion of keys taken from Keys.macroKeys.
